@@ -108,6 +108,48 @@ int main(int argc, char** argv) {
       }
     }
   }
+  /* lengths at the top of the range, where head + length wraps: the streaming decoder must not report a string as present,
+   * and the serializer must not report a definite string as fitting, on the strength of a wrapped sum */
+  for (int k = 0; k <= 24; k++) {
+    uint64_t c = ~0ull - (uint64_t)k;
+    for (int mt = 2; mt <= 3; mt++) {
+      static const size_t wins[] = {9, 10, 16, 17, 24, 33};
+      for (unsigned wi = 0; wi < sizeof wins / sizeof *wins; wi++) {
+        unsigned char* blk;
+        unsigned char* w = vh_exact_rot(wins[wi], &blk);
+        memset(w, 0x61, wins[wi]);
+        w[0] = (unsigned char)(mt << 5 | 27);
+        for (int b = 0; b < 8; b++) w[1 + b] = (unsigned char)(c >> (56 - 8 * b));
+        vh_ev_clear();
+        struct cbor_decoder_result d = cbor_stream_decode(w, wins[wi], &vh_recording_callbacks, NULL);
+        fprintf(vh_out, "{\"e\":\"claim\",\"mt\":%d", mt);
+        b8("n", c); b8("win", wins[wi]);
+        vh_kstr("st", d.status == CBOR_DECODER_FINISHED ? "fin" : d.status == CBOR_DECODER_NEDATA ? "nedata" : "error");
+        b8("req", d.required); b8("read", d.read);
+        vh_kint("calls", vh_ev.calls);
+        fputs("}\n", vh_out);
+        free(blk);
+      }
+      /* a definite string item claiming c bytes (16 real ones behind the handle), serialized into buffers that hold the head and then some */
+      static const size_t bufs[] = {0, 8, 9, 10, 16, 64};
+      for (unsigned bi = 0; bi < sizeof bufs / sizeof *bufs; bi++) {
+        cbor_item_t* it = mt == 2 ? cbor_new_definite_bytestring() : cbor_new_definite_string();
+        unsigned char* h = va_malloc(16);
+        memset(h, 0xff, 16);
+        if (mt == 2) cbor_bytestring_set_handle(it, h, (size_t)c);
+        else { cbor_string_set_handle(it, h, 16); it->metadata.string_metadata.length = (size_t)c; } /* (set_handle would scan c bytes for code points) */
+        unsigned char* oblk;
+        unsigned char* ob = vh_exact_rot(bufs[bi], &oblk);
+        size_t ret = cbor_serialize(it, ob, bufs[bi]);
+        fprintf(vh_out, "{\"e\":\"serdef\",\"mt\":%d", mt);
+        b8("n", c); b8("buf", bufs[bi]); b8("ret", ret); b8("size", cbor_serialized_size(it));
+        fputs("}\n", vh_out);
+        free(oblk);
+        if (mt == 2) cbor_bytestring_set_handle(it, h, 16); else it->metadata.string_metadata.length = 16;
+        cbor_decref(&it);
+      }
+    }
+  }
   /* serialized size of chunked strings whose chunks claim huge lengths (handles never dereferenced by the size function) */
   static const uint64_t lens[][3] = {{1ull << 62, 1ull << 62, 0}, {1ull << 63, 1ull << 63, 0}, {~0ull - 9, 1, 0}, {~0ull - 12, 1, 0}, {~0ull - 13, 1, 0}, {1ull << 63, (1ull << 63) - 20, 0},
                                      {1ull << 40, 1ull << 41, 1ull << 42}, {~0ull, 0, 0}, {~0ull - 9, 0, 0}, {5, 6, 7}, {0, 0, 0}, {1ull << 63, (1ull << 63) - 13, 1}};
